@@ -45,11 +45,12 @@ Definition chk_trace (c : (program * (symtab * macrotab)) * (list entry * (list 
   let '((p, (t, m)), (es, (g0, (l1, g1)))) := c in
   let subs := all_subs p m in
   match vm_run p t subs tstate g_cond g_rep g_val g_mac g_upd (length es + 2)
-               (mkCtx [] [] [] [] g0) (mkT es true) with
+               (mkCtx (mkSc [] [] [] []) g0) (mkT es true) with
   | Done mf =>
       ts_ok (dat _ mf) && (match ts_rest (dat _ mf) with [] => true | _ => false end) &&
       Nat.eqb (pc _ mf) (length p) && (match sstack _ mf with [] => true | _ => false end) &&
-      set_eqb (c_locals (cx _ mf)) l1 && set_eqb (c_globals (cx _ mf)) g1 &&
-      (match c_lstack (cx _ mf), c_rstack (cx _ mf), c_rmap (cx _ mf) with [], [], [] => true | _, _, _ => false end)
+      set_eqb (s_locals (c_sc (cx _ mf))) l1 && set_eqb (c_globals (cx _ mf)) g1 &&
+      (match s_lstack (c_sc (cx _ mf)), s_rstack (c_sc (cx _ mf)), s_rmap (c_sc (cx _ mf)) with
+       | [], [], [] => true | _, _, _ => false end)
   | _ => false
   end.
